@@ -157,6 +157,11 @@ class MonitoredStore(QueueStorage):
         self.qw.transit[sid] = self.qw.transit.get(sid, 0) + 1
         try:
             env, attempts = self._call('get', id, self.inner.get, id)
+            if 'get-late' in self.qw.slow_ops:
+                # the storage has answered (for disk/redis/cloud/shelve: with a copy of what it held at that moment) but the
+                # answer reaches the caller late: what it carries may be stale by then
+                if self.qw.ch.choose(2, 'slow:get-late', 'sched') == 1:
+                    self.qw.world.env_wait('store-get-answer#%d' % self.qw.op_counter)
         finally:
             self.qw.transit[sid] -= 1
         self.qw.on_get(id, env, attempts)
@@ -712,7 +717,11 @@ class QueueWorld(object):
             qw.ev('bounce-factory', tuple(envelope.recipients), reply.code, reply.message)
             if kind == 'none':
                 return None
-            b = Bounce(envelope, reply, headers_only=(kind == 'headers-only'))
+            try:
+                b = Bounce(envelope, reply, headers_only=(kind == 'headers-only'))
+            except BaseException as e:
+                rec['raised'] = '%s: %s' % (type(e).__name__, str(e)[:100])      # the library's own bounce class could not be built
+                raise
             rec['produced'] = True
             rec['bounce'] = b
             return b
